@@ -257,6 +257,13 @@ def model_from_disk(path, N):
 
 def gen_block(rng, name):
     b = gen.BLOCK_GEN[name](rng)
+    if rng.random() < 0.3:
+        # the block has a past: requests it had to refuse (wrong-length track, junk, channel in use) before it is stored
+        from harness import edits
+        try:
+            edits.refused_operations(name, b, rng)
+        except Exception:
+            pass
     if rng.random() < 0.25:
         # a frame with an infinite leading component (the library stores it as a missing frame, DESIGN 3.4): the container
         # clauses -- entry size = bytes stored, what is read back re-encodes to the stored bytes -- hold all the same
